@@ -34,6 +34,45 @@ pub enum Attach {
     Stream { via: StreamVia, prefill: Vec<u32>, close: bool },
 }
 
+thread_local! {
+    static STREAM_VARIANT: std::cell::Cell<bool> = const { std::cell::Cell::new(false) };
+}
+
+/// Runs a case generator with the "other event loop" switch on: every `ProgScene` built through
+/// [`attach_for`] then spawns its actor attached to a stream that is open but never ready, so the
+/// same programs and oracles exercise `create_loop_on_stream` instead of `create_loop`.
+pub fn with_stream_variant<T>(f: impl FnOnce() -> T) -> T {
+    STREAM_VARIANT.with(|s| s.set(true));
+    let r = f();
+    STREAM_VARIANT.with(|s| s.set(false));
+    r
+}
+
+pub fn stream_variant() -> bool {
+    STREAM_VARIANT.with(|s| s.get())
+}
+
+/// The attachment for a case with this mailbox under the current variant switch.
+pub fn attach_for(mailbox: crate::scenes::Mailbox) -> Attach {
+    if stream_variant() {
+        let via = match mailbox {
+            crate::scenes::Mailbox::U => StreamVia::BuildOnStream,
+            crate::scenes::Mailbox::B(n) => StreamVia::BoundedOnStream(n),
+        };
+        Attach::Stream { via, prefill: vec![], close: false }
+    } else {
+        Attach::None
+    }
+}
+
+pub fn variant_tag() -> &'static str {
+    if stream_variant() {
+        " [stream loop]"
+    } else {
+        ""
+    }
+}
+
 pub struct ProgScene<X> {
     pub spawn: SpawnCfg,
     pub attach: Attach,
